@@ -251,3 +251,14 @@ def admissible(rep, case, model):
             break
     rep.require("every reported state is admissible", bad is None, case, bad)
     return bad is None
+
+
+def runaway(model, m0):
+    """the explicit scheme left the physically meaningful region (self-heating by a negative driving force, feed mass
+    growing without bound, temperatures far outside the range of the property data): such trajectories amplify rounding
+    differences between twins without bound; relational checks count and skip them (C18 judges admissibility)"""
+    for k in range(len(model.time)):
+        t, m = model.feed_temperature[k], model.feed_mass[k]
+        if not (150.0 <= t <= 600.0) or not (m <= 2.0 * m0):
+            return True
+    return False
